@@ -28,6 +28,33 @@ type thread struct {
 	waitWG  *WaitGroup
 	vc      []int
 	panicV  interface{}
+	spawned bool // started by the library itself (Spawn), not by the harness
+}
+
+// vector clocks grow with the number of threads (the library may start goroutines of its own)
+func vcAt(vc []int, i int) int {
+	if i < len(vc) {
+		return vc[i]
+	}
+	return 0
+}
+
+func vcJoin(dst *[]int, src []int) {
+	for len(*dst) < len(src) {
+		*dst = append(*dst, 0)
+	}
+	for i, c := range src {
+		if c > (*dst)[i] {
+			(*dst)[i] = c
+		}
+	}
+}
+
+func (t *thread) tick() {
+	for len(t.vc) <= t.id {
+		t.vc = append(t.vc, 0)
+	}
+	t.vc[t.id]++
 }
 
 type access struct {
@@ -53,6 +80,7 @@ type Run struct {
 	Events  []string // order of accesses to shared locations ("t0 W name")
 	Points  int
 	Preempt int
+	Spawned int // goroutines the library started itself
 	Dead    string
 	mapOnly bool
 }
@@ -87,18 +115,7 @@ func Go(choose Chooser, bodies ...func()) *Run {
 		mu.Unlock()
 	}()
 	for i, b := range bodies {
-		t, b := r.threads[i], b
-		go func() {
-			<-t.wake
-			defer func() {
-				if p := recover(); p != nil {
-					t.panicV = p
-				}
-				t.done = true
-				r.toSched <- t
-			}()
-			b()
-		}()
+		r.start(r.threads[i], b)
 	}
 	// scheduler loop
 	var last *thread
@@ -149,6 +166,40 @@ func Go(choose Chooser, bodies ...func()) *Run {
 		<-r.toSched // next reached its next point or finished
 	}
 	return r
+}
+
+// start parks a goroutine for t that runs b when the scheduler first wakes it.
+func (r *Run) start(t *thread, b func()) {
+	go func() {
+		<-t.wake
+		defer func() {
+			if p := recover(); p != nil {
+				t.panicV = p
+			}
+			t.done = true
+			r.toSched <- t
+		}()
+		b()
+	}()
+}
+
+// Spawn replaces a go statement of the instrumented library: under the scheduler the new goroutine
+// becomes a controlled thread whose clock starts from the spawning thread's (everything the parent
+// did so far happens before the child), and the spawn itself is a scheduling point.
+func Spawn(f func()) {
+	r := active()
+	if r == nil || r.mapOnly {
+		go f()
+		return
+	}
+	parent := r.cur
+	t := &thread{id: len(r.threads), wake: make(chan struct{}), vc: append([]int{}, parent.vc...), spawned: true}
+	t.tick()
+	parent.tick()
+	r.threads = append(r.threads, t)
+	r.Spawned++
+	r.start(t, f)
+	r.point()
 }
 
 // Panics returns the panic values of the threads (nil entries for normal termination).
@@ -247,19 +298,19 @@ func Touch(p interface{}, write bool, name string) {
 	r.Events = append(r.Events, fmt.Sprintf("t%d %s %s", t.id, kind, name))
 	// happens-before check (vector clocks): an earlier access a by thread u is ordered before the
 	// current one iff a.clock <= t.vc[u]
-	if s.hasWrite && s.lastWrite.tid != t.id && s.lastWrite.clock > t.vc[s.lastWrite.tid] {
+	if s.hasWrite && s.lastWrite.tid != t.id && s.lastWrite.clock > vcAt(t.vc, s.lastWrite.tid) {
 		r.Races = append(r.Races, fmt.Sprintf("%s of %s by t%d is unordered with the write by t%d", map[bool]string{true: "write", false: "read"}[write], name, t.id, s.lastWrite.tid))
 	}
 	if write {
 		for u, c := range s.reads {
-			if u != t.id && c > t.vc[u] {
+			if u != t.id && c > vcAt(t.vc, u) {
 				r.Races = append(r.Races, fmt.Sprintf("write of %s by t%d is unordered with the read by t%d", name, t.id, u))
 			}
 		}
-		s.lastWrite, s.hasWrite = access{t.id, t.vc[t.id]}, true
+		s.lastWrite, s.hasWrite = access{t.id, vcAt(t.vc, t.id)}, true
 		s.reads = map[int]int{}
 	} else {
-		s.reads[t.id] = t.vc[t.id]
+		s.reads[t.id] = vcAt(t.vc, t.id)
 	}
 }
 
@@ -289,11 +340,7 @@ func (m *Mutex) Lock() {
 		panic("vsched: scheduler woke a thread for a held mutex")
 	}
 	m.holder = t
-	for i, c := range m.vc { // acquire: join the releaser's clock
-		if c > t.vc[i] {
-			t.vc[i] = c
-		}
-	}
+	vcJoin(&t.vc, m.vc) // acquire: join the releaser's clock
 }
 
 func (m *Mutex) Unlock() {
@@ -307,7 +354,7 @@ func (m *Mutex) Unlock() {
 		panic("vsched: unlock of a mutex not held by this thread")
 	}
 	m.vc = append([]int{}, t.vc...) // release
-	t.vc[t.id]++
+	t.tick()
 	m.holder = nil
 }
 
@@ -322,11 +369,7 @@ func (m *Mutex) TryLock() bool {
 	}
 	t := r.cur
 	m.holder = t
-	for i, c := range m.vc {
-		if c > t.vc[i] {
-			t.vc[i] = c
-		}
-	}
+	vcJoin(&t.vc, m.vc)
 	return true
 }
 
@@ -368,15 +411,8 @@ func (w *WaitGroup) Add(d int) {
 	w.n += d
 	if d < 0 {
 		t := r.cur
-		if w.vc == nil {
-			w.vc = make([]int, len(t.vc))
-		}
-		for i, c := range t.vc {
-			if c > w.vc[i] {
-				w.vc[i] = c
-			}
-		}
-		t.vc[t.id]++
+		vcJoin(&w.vc, t.vc)
+		t.tick()
 	}
 }
 
@@ -392,11 +428,7 @@ func (w *WaitGroup) Wait() {
 	t.waitWG = w
 	r.point()
 	t.waitWG = nil
-	for i, c := range w.vc {
-		if c > t.vc[i] {
-			t.vc[i] = c
-		}
-	}
+	vcJoin(&t.vc, w.vc)
 }
 
 // Map and Pool are passed through (not used by dst today; a scheduling point per operation).
